@@ -1,6 +1,7 @@
 package main
 
 import (
+	"github.com/frankkopp/FrankyGo/internal/config"
 	"io/ioutil"
 	"os"
 	"path/filepath"
@@ -434,3 +435,38 @@ func dbgMinorMate(args []string) int {
 	return 0
 }
 func init() { register("dbg-minormate", dbgMinorMate) }
+
+// dbg-treelegal <fen> <depth>: default configuration search; every counted move checked for legality
+func dbgTreeLegal(args []string) int {
+	fen := args[0]
+	depth, _ := strconv.Atoi(args[1])
+	restoreDefaults()
+	config.Settings.Search.UseBook = false
+	config.Settings.Search.TTSize = 2
+	mgL := movegen.NewMoveGen()
+	bad, seen := 0, 0
+	search.VerifLoopHook = func(fn int, p *position.Position, ply int, ev int, a int, b int) {
+		if ev != 4 || a == 0 {
+			return
+		}
+		seen++
+		fresh, _ := position.NewPositionFen(p.StringFen())
+		ok := false
+		for _, lm := range *mgL.GenerateLegalMoves(fresh, movegen.GenAll) {
+			if lm.MoveOf() == Move(a).MoveOf() {
+				ok = true
+			}
+		}
+		if !ok {
+			bad++
+			if bad < 4 {
+				fmt.Fprintln(realStdout, "ILLEGAL", p.StringFen(), Move(a).StringUci(), "fn", fn, "ply", ply)
+			}
+		}
+	}
+	p, _ := position.NewPositionFen(fen)
+	r, _, _ := runDepthSearch(p, depth, 60*time.Second)
+	fmt.Fprintln(realStdout, "counted", seen, "illegal", bad, "value", r.BestValue, "best", r.BestMove.StringUci())
+	return 0
+}
+func init() { register("dbg-treelegal", dbgTreeLegal) }
